@@ -51,13 +51,18 @@ def r061_matrix(ctx):
         ctx.require(lev is not None, "loop of the U column store not found")
         # the loop ranges over the index of P(e,g) and the store is unconditional within the iteration
         it_spec = A.at(lev, "self.prob_group_event.index")
-        ctx.ob("R06.1", fq, lev.node, A.eq(lev.data["iter"], it_spec),
+        # `for (e, g), p in self.prob_group_event.items()`: the same pairs, with p = P(e, g) of the pair at hand
+        items_form = A.eq(lev.data["iter"], A.at(lev, "self.prob_group_event.items()"))
+        ctx.ob("R06.1", fq, lev.node, A.eq(lev.data["iter"], it_spec) or items_form,
                "the (event, group) loop iterates over the index of P(event, group) (the occurring pairs)",
                construct="loop over prob_group_event.index")
         extra = [c for c in e.pc if c.op != "inloop" and not any(c is x for x in lev.pc)]
         ctx.ob("R06.1", fq, e.node, not extra, f"the '{sign}' column store is unconditional within the iteration",
                construct=f"U[{sign},e,g] unconditional")
         el = lev.data["elem"]
+        p_pair = None
+        if items_form:
+            el, p_pair = mk("sub", el, const(0)), mk("sub", el, const(1))
         k = e.data["key"].args[0]
         keys_ok = A.eq(k[1], mk("sub", el, const(0))) and A.eq(k[2], mk("sub", el, const(1)))
         ctx.ob("R06.1", fq, e.node, keys_ok, f"the '{sign}' column is keyed by this iteration's (event, group)",
@@ -66,7 +71,7 @@ def r061_matrix(ctx):
             "E": A.at(e, "1 * (self.tags[_EVENT] == EV)", {"EV": k[1]}),
             "G": A.at(e, "1 * (self.tags[_GROUP_ID] == GR)", {"GR": k[2]}),
             "Pe": A.at(e, "self.prob_event[EV]", {"EV": k[1]}),
-            "Peg": A.at(e, "self.prob_group_event[EV, GR]", {"EV": k[1], "GR": k[2]}),
+            "Peg": p_pair if p_pair is not None else A.at(e, "self.prob_group_event[EV, GR]", {"EV": k[1], "GR": k[2]}),
             "r": A.at(e, "self.ratio"),
         }
         spec_src = {"+": "E / Pe - r * E * G / Peg", "-": "-r * E / Pe + E * G / Peg"}[sign]
